@@ -8,6 +8,7 @@ CONSTANTS
   MaxNextF = 0
   TrackFiles = FALSE
   MaxSnaps = 1
+  AllowRepair = FALSE
   UseBoundary = TRUE
   DropTombstoneAlways = FALSE
   MaxOps = 14
